@@ -21,7 +21,9 @@ def run(tier, seed):
              dict(bursts=[(1, 17), (2, 17)], pad=4089, exitcode=3),               # beyond the 64 KiB pipe capacity, one stream after the other
              dict(bursts=[(1, 2), (2, 1)], sig=15), dict(bursts=[(1, 1)], sig=9),
              # a job starts with every signal at its default action: one ended by SIGPIPE (or by any other signal), and one whose pipelines rely on it
-             dict(bursts=[(1, 1), (2, 2)], sig=13), dict(bursts=[(2, 1), (1, 1)], sig=rnd.choice([1, 2, 3, 6, 10, 12, 14])), dict(bursts=[(1, 1), (2, 1)], pipeline=True, exitcode=0)]
+             dict(bursts=[(1, 1), (2, 2)], sig=13), dict(bursts=[(2, 1), (1, 1)], sig=rnd.choice([1, 6, 10, 12, 14])), dict(bursts=[(1, 1), (2, 1)], pipeline=True, exitcode=0),
+             # a job that is stopped and continued on the way
+             dict(bursts=[(1, 2), (2, 2), (1, 3)], stopcont=True, exitcode=rnd.choice([0, 5])), dict(bursts=[(2, 1), (1, 1)], stopcont=True, sig=15)]
         if tier == 'thorough':
             v += [dict(bursts=[(1, 130), (2, 130)], pad=4089, exitcode=0), dict(bursts=[(1, 1), (2, 1)] * 120, pad=4089, exitcode=0),   # ~1 MiB
                   dict(bursts=[(1, 5), (2, 5)], sig=24), dict(bursts=[(1, 40)], pad=100, exitcode=7)]
@@ -60,7 +62,7 @@ def run(tier, seed):
     def one(j):
         rq, v = j
         return execrun.run_one(B, shim, xd, rq, v['bursts'], v.get('exitcode', 0), v.get('sig', 0), v.get('pad', 0), timeout=120,
-                               extra_vtodo=(['DURATION:PT%dS' % v['limit']] if v.get('limit') else ()), linger=v.get('linger', 0), pipeline=v.get('pipeline', False))
+                               extra_vtodo=(['DURATION:PT%dS' % v['limit']] if v.get('limit') else ()), linger=v.get('linger', 0), pipeline=v.get('pipeline', False), stopcont=v.get('stopcont', False))
     with cf.ThreadPoolExecutor(max_workers=vlib.NCPU) as ex:
         recs = list(ex.map(one, jobs))
     trace = f'{wd}/exec.ndjson'
